@@ -56,15 +56,24 @@ fn seqx_main(args: &Args) -> i32 {
     let state_cap = args.usize("state-cap", 400_000) as u64;
     let mut counter = 0usize;
     seqx_run_type::<String>(&property, thorough, shard, &mut counter, state_cap);
-    if property == "C05" || (property == "C16" && thorough) {
+    if property == "C05" {
+        // the memory estimator is per type: owned-heap containers, nesting, tuples of unequal inline sizes
         seqx_run_type::<Vec<String>>(&property, thorough, shard, &mut counter, state_cap);
         seqx_run_type::<Option<String>>(&property, thorough, shard, &mut counter, state_cap);
+        seqx_run_type::<(u32, String, Box<String>)>(&property, thorough, shard, &mut counter, state_cap);
+        seqx_run_type::<(u8, u8, String)>(&property, thorough, shard, &mut counter, state_cap);
         if thorough {
             seqx_run_type::<Vec<u8>>(&property, thorough, shard, &mut counter, state_cap);
             seqx_run_type::<Result<String, String>>(&property, thorough, shard, &mut counter, state_cap);
             seqx_run_type::<(String, Vec<u8>)>(&property, thorough, shard, &mut counter, state_cap);
             seqx_run_type::<Box<String>>(&property, thorough, shard, &mut counter, state_cap);
+            seqx_run_type::<Vec<Vec<u8>>>(&property, thorough, shard, &mut counter, state_cap);
+            seqx_run_type::<(String, Option<String>)>(&property, thorough, shard, &mut counter, state_cap);
         }
+    }
+    if property == "C16" && thorough {
+        seqx_run_type::<Vec<String>>(&property, thorough, shard, &mut counter, state_cap);
+        seqx_run_type::<(u8, u8, String)>(&property, thorough, shard, &mut counter, state_cap);
     }
     emit("DONE", J::obj().set("configs_total", counter));
     0
@@ -151,6 +160,10 @@ fn seqx_replay(path: &str, property: &str) -> i32 {
         "Result<String,String>" => seqx_replay_typed::<Result<String, String>>(spec, &hist, property),
         "(String,Vec<u8>)" => seqx_replay_typed::<(String, Vec<u8>)>(spec, &hist, property),
         "Box<String>" => seqx_replay_typed::<Box<String>>(spec, &hist, property),
+        "(String,Option<String>)" => seqx_replay_typed::<(String, Option<String>)>(spec, &hist, property),
+        "Vec<Vec<u8>>" => seqx_replay_typed::<Vec<Vec<u8>>>(spec, &hist, property),
+        "(u8,u8,String)" => seqx_replay_typed::<(u8, u8, String)>(spec, &hist, property),
+        "(u32,String,Box<String>)" => seqx_replay_typed::<(u32, String, Box<String>)>(spec, &hist, property),
         _ => seqx_replay_typed::<String>(spec, &hist, property),
     };
     let (a, bad_a) = run(&spec);
